@@ -21,7 +21,7 @@ RULE = (
 )
 ASSUMPTIONS = ["'same terminal string' is judged with the library's own str() (C01 establishes what str() displays)"]
 SHARDS = {"quick": 4, "thorough": 16}
-HOWS = ["same", "resplit", "add_empty_run", "add_false_att", "change_att", "change_text", "termstr_as_str", "text_as_str", "independent", "independent_str"]
+HOWS = ["same", "resplit", "shift_boundary", "shift_boundary", "move_empty_run", "add_empty_run", "add_false_att", "change_att", "change_text", "termstr_as_str", "text_as_str", "independent", "independent_str"]
 
 
 def derive(case):
@@ -38,6 +38,22 @@ def derive(case):
         t, at = b[i]
         cut = 1 + (k // 7) % (len(t) - 1)
         return {"desc": b[:i] + [[t[:cut], dict(at)], [t[cut:], dict(at)]] + b[i + 1 :]}
+    if how == "shift_boundary":
+        # same display, same number of runs, run boundary at a different place
+        idx = [i for i, (t, at) in enumerate(b) if len(t) >= 3]
+        if not idx:
+            return {"desc": b}
+        i = idx[k % len(idx)]
+        t, at = b[i]
+        c1 = 1 + (k // 7) % (len(t) - 1)
+        c2 = 1 + (c1 + (k // 31) % (len(t) - 2)) % (len(t) - 1)
+        if c1 == c2:
+            c2 = 1 if c1 != 1 else 2
+        mk = lambda c: b[:i] + [[t[:c], dict(at)], [t[c:], dict(at)]] + b[i + 1 :]
+        return {"desc": mk(c2), "a_desc": mk(c1)}
+    if how == "move_empty_run":
+        extra = case.get("extra_atts", {"fg": 31})
+        return {"desc": b + [["", dict(extra)]], "a_desc": [["", dict(extra)]] + b}
     if how == "add_empty_run":
         i = k % (len(b) + 1)
         return {"desc": b[:i] + [["", case.get("extra_atts", {"fg": 31})]] + b[i:]}
@@ -158,8 +174,10 @@ def run_case(case):
         check_repr(res, case["desc"], case)
         return res
     a_desc = case["a"]
-    a = build(a_desc, "chunks")
     bspec = derive(case)
+    if "a_desc" in bspec:
+        a_desc = bspec["a_desc"]
+    a = build(a_desc, "chunks")
     res.label("how_" + case["how"])
     if "termstr_of_a" in bspec:
         b, bc = str(a), None
@@ -183,7 +201,7 @@ def run_case(case):
 
 
 def strategy():
-    d = gen.desc(alphabet="ab é\n", max_runs=4, max_len=3)
+    d = gen.desc(alphabet="ab é\n", max_runs=4, max_len=4)
     pair = st.fixed_dictionaries(
         {
             "a": d,
